@@ -272,7 +272,10 @@ func (t *textGen) randID(noAngle bool) string {
 }
 
 func (t *textGen) randTime() time.Time {
-	zones := []*time.Location{time.UTC, time.FixedZone("", 3600), time.FixedZone("", -19800), time.FixedZone("", 14*3600), time.FixedZone("", -12*3600+1800)}
+	// (two zones whose offsets have seconds — local mean times: RFC 3339 cannot write them, NewTemporal keeps such
+	// anchors in UTC since 222a7ff)
+	zones := []*time.Location{time.UTC, time.FixedZone("", 3600), time.FixedZone("", -19800), time.FixedZone("", 14*3600), time.FixedZone("", -12*3600+1800),
+		time.FixedZone("", 1172), time.FixedZone("", -59)}
 	years := []int{1, 999, 1969, 1970, 2006, 2038, 9999}
 	ns := []int{0, 1, 100, 123456789, 999999999, 120000000}
 	if t.r.chance(1, 6) {
@@ -282,7 +285,8 @@ func (t *textGen) randTime() time.Time {
 		if t.r.chance(1, 6) {
 			// the last instant the format can write, in the zone itself (seen from a zone further east it is in the year
 			// 10000, which RFC 3339 cannot write: outside the domain, Model/TimeFmt.lean `timeOK`)
-			return time.Date(9999, 12, 31, 23, 59, 59, 999999999, z)
+			// (a whole-minute zone: an anchor in a zone with seconds is kept in UTC, which may lie in the year 10000)
+			return time.Date(9999, 12, 31, 23, 59, 59, 999999999, zones[t.r.intn(5)])
 		}
 		return special[t.r.intn(len(special))].In(z)
 	}
